@@ -541,23 +541,45 @@ Example C14_two_scripts_one_model :
 Proof. exact two_scripts_one_model. Qed.
 Print Assumptions C14_two_scripts_one_model.
 
-(** [params_distinct] is an invariant under the additional guard [pd_guard] (Proofs/C14_C02_Link.v):
-    [EAddEdge] parameters not held by another parent of the child, no [become] of a node with a
-    self-loop, and -- checked on the step's result, hence "partial" -- distinct in-edge parameters
-    of a newly created node. *)
-Theorem C14_params_distinct_reachable_partial :
-  forall ops ms, run [empty_net] ops = Ok ms -> script_pd_ok ops = true -> Forall params_distinct ms.
-Proof. exact reachable_params_distinct_partial. Qed.
-Print Assumptions C14_params_distinct_reachable_partial.
+(** [params_distinct] is an invariant under the additional guard [pd_guard'] (Proofs/C14_C02_Link.v),
+    every clause of which is read off the call and the model BEFORE it:
+      pd_guard' m (EAddNode _ _ _ parents _) = nodup_b parents            (positional parents pairwise distinct)
+      pd_guard' m (EAddEdge _ p c par)       = edge_guard m p c par       (the parameter -- explicit, or the next
+                                                                           positional index -- is not held by
+                                                                           another parent of [c])
+      pd_guard' m (EBecome _ n _)            = negb (pair_in n n (s_edges m))   (no self-loop at [n])
+      pd_guard' m (ESetObserved _ n _)       = has n (s_nodes m)          (data only on a node; keeps [Closed])
+      pd_guard' m _                          = true
+    [script_pd_ok' ops] asks it of every step of [ops] run from the empty model. *)
+Theorem C14_params_distinct_reachable :
+  forall ops ms, run [empty_net] ops = Ok ms -> script_pd_ok' ops = true -> Forall params_distinct ms.
+Proof. exact reachable_params_distinct. Qed.
+Print Assumptions C14_params_distinct_reachable.
+
+(** why the [EAddNode] clause suffices: with pairwise distinct parents on a structurally consistent
+    model, the i-th positional parent of the new node gets the parameter [PInt i] *)
+Theorem C14_add_node_positional_params :
+  forall m h n st parents obs m',
+    Closed m -> NoDup parents -> step_model m (EAddNode h n st parents obs) = Ok m' ->
+    map fst (preds (s_edges m') n) = parents
+    /\ map snd (preds (s_edges m') n) = map PInt (seq 0 (List.length parents)).
+Proof. exact add_node_positional_params. Qed.
+Print Assumptions C14_add_node_positional_params.
 
 Theorem C14_step_keeps_params_distinct :
+  forall m o m', Closed m -> pd_guard' m o = true -> step_model m o = Ok m' -> PD (s_edges m) -> PD (s_edges m').
+Proof. exact step_model_PD'. Qed.
+Print Assumptions C14_step_keeps_params_distinct.
+
+(** the same with the [EAddNode] clause checked on the step's result ([pd_guard]); no [Closed] needed *)
+Theorem C14_step_keeps_params_distinct_result_checked :
   forall m o m', pd_guard m o = true -> step_model m o = Ok m' -> PD (s_edges m) -> PD (s_edges m').
 Proof. exact step_model_PD. Qed.
-Print Assumptions C14_step_keeps_params_distinct.
+Print Assumptions C14_step_keeps_params_distinct_result_checked.
 
 Theorem C14_scripts_same_model_same_generate_guarded :
   forall ops1 ops2 ms1 ms2 m1 m2 outs W,
-    run [empty_net] ops1 = Ok ms1 -> script_ok ops1 = true -> script_pd_ok ops1 = true -> In m1 ms1 ->
+    run [empty_net] ops1 = Ok ms1 -> script_ok ops1 = true -> script_pd_ok' ops1 = true -> In m1 ms1 ->
     run [empty_net] ops2 = Ok ms2 -> script_ok ops2 = true -> In m2 ms2 ->
     same_model m1 m2 ->
     NoDup (map fst W) -> (forall k, In k (map fst W) -> ~ In k inames) -> outputs_wf m1 outs ->
@@ -565,6 +587,19 @@ Theorem C14_scripts_same_model_same_generate_guarded :
 Proof. exact scripts_same_model_same_generate_guarded. Qed.
 Print Assumptions C14_scripts_same_model_same_generate_guarded.
 
-Example C14_two_scripts_pd_ok : script_pd_ok ex_ops_a = true /\ script_pd_ok ex_ops_b = true.
+Example C14_two_scripts_pd_ok : script_pd_ok' ex_ops_a = true /\ script_pd_ok' ex_ops_b = true.
 Proof. exact two_scripts_pd_ok. Qed.
 Print Assumptions C14_two_scripts_pd_ok.
+
+(** the guard refuses the three refuting scripts above *)
+Example C14_refuted_scripts_refused :
+  script_pd_ok' [ EAddNode 0 "t" (st_prior "t") [] None; EAddNode 0 "u" (st_prior "u") [] None;
+                  EAddNode 0 "o" (st_op "o") ["t"; "t"; "u"] None ] = false
+  /\ script_pd_ok' [ EAddNode 0 "t" (st_prior "t") [] None; EAddNode 0 "u" (st_prior "u") [] None;
+                     EAddNode 0 "v" (st_prior "v") [] None;
+                     EAddNode 0 "o" (st_op "o") ["t"; "u"] None;
+                     ERemove 0 "t"; EAddEdge 0 "v" "o" None ] = false
+  /\ script_pd_ok' [ EAddNode 0 "t" (st_prior "t") [] None; EAddNode 0 "u" (st_prior "u") [] None;
+                     EAddNode 0 "o" (st_op "o") ["t"] None; EAddEdge 0 "u" "o" (Some (PInt 0)) ] = false.
+Proof. exact refuted_scripts_refused. Qed.
+Print Assumptions C14_refuted_scripts_refused.
